@@ -18,7 +18,7 @@ C03(r) == (r.e \in {"Probe", "EbProbe"} /\ r.ok) => StructValid(r.sv)
 \*   predicted accept  => if the later stages accept too, the points and faces are the ones the model computed
 \*   predicted "ub"    => the decoder would index a table with an invalid id: it cannot come back with a record at all
 \*   nesting: a chain of D sub-metadata blocks has levels 0 .. D-1 (children of the root are level 0); refused when a level exceeds 1000
-EbDrift(r) == (r.e = "EbProbe" /\ r.mode \notin {"kd", "ia"} /\ r.natt <= 6) =>
+EbDrift(r) == (r.e = "EbProbe" /\ r.mode \notin {"kd", "ia", "hd"} /\ r.natt <= 6) =>
    Drift(/\ (r.pk = "rej" => ~r.ok)
          /\ ((r.pred = "acc" /\ r.ok) => (r.np = r.pred_np /\ r.faces = r.pred_faces))
          /\ ((r.pred = "acc" /\ r.natt = 0 /\ r.pred_np > 0) => r.ok)      \* without attribute decoders nothing later can refuse
@@ -41,6 +41,9 @@ SeamDrift(r) == (r.e = "EbProbe" /\ r.mode = "std" /\ r.natt >= 7 /\ r.pk \in {"
                       /\ Len(r.vidx) = r.np /\ Len(r.avidx) = r.np /\ Len(r.pred_vidx) = r.np /\ Len(r.pred_avidx) = r.np
                       /\ \A p \in 1..r.np : /\ (r.pred_vidx[p] # -1 => r.vidx[p] = r.pred_vidx[p])
                                               /\ (r.pred_avidx[p] # -1 => r.avidx[p] = r.pred_avidx[p])), "EbDecoder attribute seams")
+\* attribute decoder headers (EbDecoder!AttHeader / HeaderCase, mode "hd"): accepted exactly when the model accepts, with the model's points and faces
+HdDrift(r) == (r.e = "EbProbe" /\ r.mode = "hd" /\ r.pk \in {"acc", "rej"}) =>
+   Drift((r.pk = "acc") = r.ok /\ (r.ok => r.np = r.pred_np /\ r.faces = r.pred_faces), "EbDecoder attribute decoder headers")
 \* kd-tree rows (module KdTree): the real encoder writes the bytes assembled from the model's request lists (honest rows); the real decoder accepts
 \* exactly what the model accepts -- nothing behind the kd-tree payload can refuse a uint32 attribute -- and returns the model's points in the model's order
 \* integer attribute rows (module IntAttr, mode "ia"): the same clause; rows the model leaves open ("any:...") are exempt
@@ -53,6 +56,6 @@ LkDrift(r) == (r.e = "EbProbe" /\ r.mode \in {"lkd", "lkq"} /\ r.pk = "acc") => 
 NestDrift(r) == r.e = "Nest" => Drift(r.ok = (r.depth - 1 <= 1000), "Metadata nesting limit")
 C18(r) == (r.e = "Probe" /\ r.allocs) => AllocBounded(r)
 Check(r) == CASE Prop = "C02" -> C02(r) [] Prop = "C03" -> C03(r) [] Prop = "C18" -> C18(r) [] OTHER -> FALSE
-Conforms == ti <= N => (Check(Recs[ti]) /\ EbDrift(Recs[ti]) /\ OrderDrift(Recs[ti]) /\ SeamDrift(Recs[ti]) /\ ParaDrift(Recs[ti]) /\ KdDrift(Recs[ti]) /\ LkDrift(Recs[ti]) /\ NestDrift(Recs[ti]))
+Conforms == ti <= N => (Check(Recs[ti]) /\ EbDrift(Recs[ti]) /\ OrderDrift(Recs[ti]) /\ SeamDrift(Recs[ti]) /\ HdDrift(Recs[ti]) /\ ParaDrift(Recs[ti]) /\ KdDrift(Recs[ti]) /\ LkDrift(Recs[ti]) /\ NestDrift(Recs[ti]))
 Spec == ShardInit /\ [][ShardNext]_tvars
 =============================================================================
